@@ -122,6 +122,8 @@ def N_path(name):
 
 
 VOCAB = {
+    # a `match` whose arms are all pure values is a Gallina match expression (is_printable_bytes written as a match)
+    "pure_match": True,
     "enums": P.VOCAB["enums"],
     "structs": {
         # pub(crate) struct Utf8Parser { utf8_parser: utf8parse::Parser }  ==  the decoder itself
